@@ -77,7 +77,7 @@ theorem undoDelMoveDown_step_full {m : MapPollard H} {T n : Nat} {A1 : Pos → O
 
 /-- **`undoDelMoveDown` over the reversed detwinned targets on a full forest** that tracks the
 forest after the deletions: the result is represented by `moveBackAll` -/
-theorem funremove_rep (cr : CR H) : ∀ (ds : List Pos) (F : Forest H), F.numLeaves < 2 ^ 63 → Hyg F →
+theorem funremove_rep (nz : NZ H) : ∀ (ds : List Pos) (F : Forest H), F.numLeaves < 2 ^ 63 → Hyg F →
     (∀ d ∈ ds, ∃ h b, (d, h, b) ∈ F.nodes) →
     ds.Pairwise (fun a b => ¬ Anc (parent a) b ∧ ¬ Anc b (parent a)) →
     ∀ (P : H → Prop), (∀ d ∈ ds, ∀ t x, (t, x, true) ∈ F.nodes → Anc d t → P x) →
@@ -93,12 +93,12 @@ theorem funremove_rep (cr : CR H) : ∀ (ds : List Pos) (F : Forest H), F.numLea
     have hn : F.numLeaves < 2 ^ 64 := by omega
     obtain ⟨h, b, hd⟩ := hnode d List.mem_cons_self
     rw [List.pairwise_cons] at hsep
-    have L := laws_forest cr F hn hy
+    have L := laws_forest nz F hn hy
     have hy1 := hyg_delLeaves hy (leavesUnder F d)
     have hnl1 : (F.delLeaves (leavesUnder F d)).numLeaves = F.numLeaves := numLeaves_delLeaves F _
     have hn1 : (F.delLeaves (leavesUnder F d)).numLeaves < 2 ^ 64 := by rw [hnl1]; exact hn
     have L1 : Laws (F.delLeaves (leavesUnder F d)).nodes (FRoot F) := by
-      have := laws_forest cr (F.delLeaves (leavesUnder F d)) hn1 hy1
+      have := laws_forest nz (F.delLeaves (leavesUnder F d)) hn1 hy1
       rwa [froot_del] at this
     have pers : ∀ d' ∈ ds,
         (∀ h' b', (d', h', b') ∈ F.nodes → (d', h', b') ∈ (F.delLeaves (leavesUnder F d)).nodes) ∧
@@ -107,12 +107,12 @@ theorem funremove_rep (cr : CR H) : ∀ (ds : List Pos) (F : Forest H), F.numLea
       have hs := hsep.1 d' hd'
       by_cases hroot : isRootPos F.numLeaves d = true
       · obtain ⟨s1, s2⟩ := sep_disj hs
-        exact persist_root cr F hn hy hroot s1 s2
+        exact persist_root nz F hn hy hroot s1 s2
       · have hnr : isRootPos F.numLeaves d = false := by
           cases hx : isRootPos F.numLeaves d with
           | false => rfl
           | true => exact absurd hx hroot
-        exact persist_nonroot cr F hn hy hd hnr hs.1 hs.2
+        exact persist_nonroot nz F hn hy hd hnr hs.1 hs.2
     have hmemLU : ∀ d' ∈ ds, ∀ x, x ∈ leavesUnder (F.delLeaves (leavesUnder F d)) d' ↔ x ∈ leavesUnder F d' := by
       intro d' hd' x
       rw [mem_leavesUnder, mem_leavesUnder]
@@ -142,10 +142,10 @@ theorem funremove_rep (cr : CR H) : ∀ (ds : List Pos) (F : Forest H), F.numLea
         (ds.flatMap (leavesUnder (F.delLeaves (leavesUnder F d))))).nodes P (fun _ => False) :=
       FAH.congr_N fa (congrArg Forest.nodes hFall)
     -- the rest of the list first
-    obtain ⟨m1, hmd1, rep1, hnl1', hfull1⟩ := funremove_rep cr ds (F.delLeaves (leavesUnder F d)) (by rw [hnl1]; exact hn63) hy1
+    obtain ⟨m1, hmd1, rep1, hnl1', hfull1⟩ := funremove_rep nz ds (F.delLeaves (leavesUnder F d)) (by rw [hnl1]; exact hn63) hy1
       hnode1 hsep.2 P hPd1 m T A C rep (by rw [hnl1]; exact hnl)
       (by show forestRows (F.delLeaves (leavesUnder F d)).numLeaves ≤ T; rw [hnl1]; exact hfit) hfull fa0
-    have inv1 := funremove_chain cr ds (F.delLeaves (leavesUnder F d)) hn1 hy1 hnode1 hsep.2 P hPd1 A C fa0
+    have inv1 := funremove_chain nz ds (F.delLeaves (leavesUnder F d)) hn1 hy1 hnode1 hsep.2 P hPd1 A C fa0
     rw [hnl1] at inv1
     rw [hnl1] at rep1
     generalize hAC : moveBackAll F.numLeaves ds (A, C) = AC at rep1 inv1
@@ -194,7 +194,7 @@ theorem funremove_rep (cr : CR H) : ∀ (ds : List Pos) (F : Forest H), F.numLea
         | false => rfl
         | true => exact absurd hx hroot
       have hnrR : ¬ FRoot F d := by unfold FRoot; rw [hnr]; simp
-      obtain ⟨D1, D2, D3, D4⟩ := del_nonroot cr F hn hy hd hnr (leavesUnder F d) (fun x => mem_leavesUnder)
+      obtain ⟨D1, D2, D3, D4⟩ := del_nonroot nz F hn hy hd hnr (leavesUnder F d) (fun x => mem_leavesUnder)
       obtain ⟨ρ, hρ, hρd⟩ := L.under_root d h b hd
       obtain ⟨hσ0, bσ0, hσN⟩ := L.sib_node d h b hd hnrR
       obtain ⟨hρh, bρ, hρN⟩ := L.root_node ρ hρ
@@ -394,7 +394,7 @@ open SpecPlan CalcGeo CalcComplete
 /-- the run of `undoDeletion` with the canonical proof, for ANY state `m3` that `placeProof` returns
 together with the unchanged proof (the part of `MapUndoDel.undoDeletion_rep` that does not depend on
 the `full` flag) -/
-theorem undoDeletion_run (cr : CR H) {m m2 m3 : MapPollard H} {F : Forest H} {T : Nat}
+theorem undoDeletion_run (nz : NZ H) {m m2 m3 : MapPollard H} {F : Forest H} {T : Nat}
     (hrows : m.totalRows = H8 T) (hT : T ≤ 63) (hn : m.numLeaves = BitVec.ofNat 64 F.numLeaves)
     (hn63 : F.numLeaves < 2 ^ 63) (hfit : F.rows ≤ T) (hy : Hyg F)
     {L : List H} {ts : List Pos} {ps : List H} (hnd : L.Nodup) (hc : F.canon L = some (ts, ps))
@@ -410,7 +410,7 @@ theorem undoDeletion_run (cr : CR H) {m m2 m3 : MapPollard H} {F : Forest H} {T 
       (MapPollard.putCalculated (fun p => (ts.map (encP T)).contains p)
         ((pathSet F ts).map (fun p => (encP T p, tvF F p))) m3, .ok ()) := by
   have hn64 : F.numLeaves < 2 ^ 64 := Nat.lt_trans hn63 (by decide)
-  have Lw := laws_forest cr F hn64 hy
+  have Lw := laws_forest nz F hn64 hy
   have h63 : F.rows ≤ 63 := by omega
   have htr : TreeRows m.numLeaves = H8 F.rows := by rw [hn]; exact SpecView.treeRows_eq hn63
   have tsB : ∀ t ∈ ts, ∃ R, BelowRoot F.numLeaves t.1 t.2 R := by
@@ -502,8 +502,8 @@ theorem undoDeletion_run (cr : CR H) {m m2 m3 : MapPollard H} {F : Forest H} {T 
       | none => (ts.map (E F.rows)).map (fun _ => zero)) = ts.map (valAt CTree.hash F) := by
     rw [canon_target_vals hc]
     simp [CTree.hash]
-  obtain ⟨r, h5, _, _, hnodes⟩ := calc_generic (Nat.le_of_lt hn63) cr.nonzero hy.nz hnd hc CTree.hash
-    (fun a b ga gb => hash_node_comb cr.nonzero ga gb) (fun _ _ _ _ _ _ _ => rfl) (some L) hdh []
+  obtain ⟨r, h5, _, _, hnodes⟩ := calc_generic (Nat.le_of_lt hn63) nz.nonzero hy.nz hnd hc CTree.hash
+    (fun a b ga gb => hash_node_comb nz.nonzero ga gb) (fun _ _ _ _ _ _ _ => rfl) (some L) hdh []
   have h5' : calculateHashes m3.numLeaves (some L) (ts.map (encP F.rows)) ps = .ok r := by
     rw [hn3, hnl2, hn]
     rw [List.append_nil] at h5
